@@ -39,6 +39,16 @@ def run(seed, tier, replay=None):
     # timed-out attempts whatever the process then does (exits 0 on SIGTERM, ignores it, writes and exits): result Timeout
     r = mix.merge(r, tim.run_family("slow", seed, tier, 4, 30, kinds=("result",)))
     # a leaky pass whose pipes are still being watched when a fail-fast cancellation arrives
-    return mix.merge(r, tim.run_family("cancel", seed, tier, 6, 30, kinds=("result",)))
+    r = mix.merge(r, tim.run_family("cancel", seed, tier, 6, 30, kinds=("result",)))
+    # "reported flaky iff …" also in the run statistics and the summary line: the real RunStats / Reporter against the model (p_junit)
+    from props import C17
+    j = C17.run_junit(seed, tier)
+    for v in j["violations"]:
+        ip, mp = v["payload"]["impl"].split(" ## "), v["payload"]["spec"].split(" ## ")
+        if len(ip) == 3 and len(mp) == 3 and ip[1:] != mp[1:]:
+            r["violations"].append(dict(v, what="flaky / passed / failed counts reported for the run disagree with the per-test attempt results: " + v["what"]))
+    r["broken"] += j["broken"]; r["evaluations"] += j["evaluations"]; r["traces"] += j["traces"]; r["distinct_nontrivial"] += j["distinct_nontrivial"]
+    r["rule"] += " || " + j["rule"]
+    return r
 
 KNOWN_MATCHERS = {}
